@@ -17,11 +17,17 @@ Definition eval12 (c : case12) : verdict :=
   let r := if greedy_p then greedy ws k p0 else kk_partition sort_stable_desc ws k p0 in
   (* k-way KarmarkarKarp: the tie order of sort_unstable is not specified, only the loads are compared *)
   let loads_only := negb greedy_p && Nat.leb 3 k in
+  (* rows of more than 20 entries: the standard library no longer uses its (stable) insertion sort, ties do
+     come out in another order than in the executed model and may steer later pairings: nothing but the
+     property itself is fixed, so only the checker judges the output *)
+  let wide := loads_only && Nat.leb 21 k in
   let exact := res_matches r (c_impl c) in
   let corr1 :=
     if loads_only then
       match r, c_impl c with
-      | Ok p, IOk p' => Nat.eqb (length p) (length p') && list_Zeqb (sorted_loads ws p k) (sorted_loads ws p' k)
+      | Ok p, IOk p' =>
+        Nat.eqb (length p) (length p')
+        && (wide || list_Zeqb (sorted_loads ws p k) (sorted_loads ws p' k))
       | _, _ => exact
       end
     else exact in
@@ -42,7 +48,7 @@ Definition eval12 (c : case12) : verdict :=
       end
     else true in                          (* negative weights / zero parts: outside the contract *)
   let cls := match c_impl c with
-             | IOk _ => if loads_only then (if exact then 5 else 6) else 0
+             | IOk _ => if wide then (if exact then 7 else 8) else if loads_only then (if exact then 5 else 6) else 0
              | IErr 1 _ _ => 1 | IErr _ _ _ => 2 | IPanic => 3 | IHang => 4 end%N in
   {| corr_ok := corr1 && corr2; prop_ok := prop; cls := cls |}.
 
